@@ -401,6 +401,26 @@ func TestC19(t *testing.T) {
 			}
 		}
 	}
+	// Part 1c: the resumed endpoint sends from a NEW local address (connection-ID configurations)
+	nNewAddr := 0
+	for _, cf := range cfgs {
+		if !cf.hasDim("cid") {
+			continue
+		}
+		for _, client := range []bool{true, false} {
+			for a := 0; a <= maxRec; a++ {
+				for b := 0; b <= maxRec; b++ {
+					for _, in := range []inflight{inflNone, inflFromXLate} {
+						cf, pt := cf, point{Client: client, A: a, B: b, Infl: in, NewAddr: true}
+						nNewAddr++
+						cases = append(cases, run.Case{ID: "resume/" + cf.Name + "/" + pt.String(), Run: func(t *testing.T) run.Outcome {
+							return cleanOracle(cf, runScenario(t, p, cf, pt, nil, seed))
+						}})
+					}
+				}
+			}
+		}
+	}
 	// Part 3
 	cache := &blobCache{m: map[string][]byte{}, bad: map[string]string{}}
 	blobs := blobSpecs(cfgs, thorough)
@@ -461,8 +481,8 @@ func TestC19(t *testing.T) {
 		}
 	}
 	run.Main(t, "C19", cases, map[string]any{
-		"field_corruptions": nField,
-		"configs":           len(cfgs), "features_max": kFeat, "sides": 2, "records_before_export_per_direction": "0..3", "inflight_modes": len(infls),
+		"field_corruptions": nField, "new_address_cases": nNewAddr,
+		"configs": len(cfgs), "features_max": kFeat, "sides": 2, "records_before_export_per_direction": "0..3", "inflight_modes": len(infls),
 		"resume_cases": nResume, "corruption_blobs": len(blobs), "corruption_positions": nCorrupt,
 		"corruption_values_per_byte": "b^01,b^80,00,ff + truncation at every length", "records_after_resume_per_direction": 2,
 	})
